@@ -737,8 +737,28 @@ func (fx *Fx) applyCall(st *State, fn *types.Func, recv *Val, args []Val, call *
 	pre := st.clone()
 	// frame
 	ms := fx.w.modsOfFunc(key, c, nil)
-	if sp.Flags["lockeffect"] != "" {
+	var lkFrame func()
+	if v := sp.Flags["lockeffect"]; v != "" {
+		oldLK := st.heap("LK", "(Array Int Int)")
 		st.havocHeap("LK") // the callee changes lock state; its ensures say how
+		if v != "true" {
+			// flag lockeffect x.f y.g: only these locks change state
+			exprs := strings.Fields(v)
+			lkFrame = func() {
+				env := &SpecEnv{fx: fx, st: pre, old: pre, bound: bound, pos: specPos, pkg: calleePkg}
+				cur := oldLK
+				nw := st.heap("LK", "(Array Int Int)")
+				for _, ex := range exprs {
+					pe, perr := parseSpecExpr("mu(" + ex + ")")
+					if perr != nil {
+						sfail("flag lockeffect %s: %v", ex, perr)
+					}
+					m := fx.specEval(env, pe).T
+					cur = fmt.Sprintf("(store %s %s (select %s %s))", cur, m, nw, m)
+				}
+				st.assume(fmt.Sprintf("(= %s %s)", nw, cur))
+			}
+		}
 	}
 	// results
 	var out []Val
@@ -812,6 +832,9 @@ func (fx *Fx) applyCall(st *State, fn *types.Func, recv *Val, args []Val, call *
 		fx.havocMods(st, ms)
 	}
 	applyObjFrames()
+	if lkFrame != nil {
+		lkFrame()
+	}
 	if !pure {
 		// whatever a callee returns exists when it returns
 		for i, v := range out {
